@@ -1161,6 +1161,70 @@ def r03t(rep, F, solves, rule='R03t'):
     rep.require_count(rule, 'solve() functions that seed their exact solution from a preserved node', n, 2)
 
 
+CLEARQUERY_EXCEPTIONS = {
+    # (class, member): why clearQuery() legitimately keeps what clear() empties
+    (G_ + 'PRM', 'nn_'): 'the roadmap is kept between queries by design (clearQuery forgets the query, not the roadmap)',
+    (G_ + 'PRM', 'g_'): 'the roadmap is kept between queries by design',
+    (G_ + 'LazyPRM', 'nn_'): 'the roadmap is kept between queries by design',
+    (G_ + 'LazyPRM', 'g_'): 'the roadmap is kept between queries by design',
+    (G_ + 'SPARS', 'nn_'): 'the roadmap is kept between queries by design', (G_ + 'SPARS', 'snn_'): 'the roadmap is kept between queries by design',
+    (G_ + 'SPARS', 'g_'): 'the roadmap is kept between queries by design', (G_ + 'SPARS', 's_'): 'the roadmap is kept between queries by design',
+    (G_ + 'SPARStwo', 'nn_'): 'the roadmap is kept between queries by design', (G_ + 'SPARStwo', 'g_'): 'the roadmap is kept between queries by design',
+}
+
+
+def _cleared_members(g):
+    out = {}
+    for c in g.walk():
+        cal = (c.get('callee') or '').split('::')[-1]
+        if cal in ('clear', 'reset', 'clearQuery', 'restart') and c['k'] == 'CXXMemberCallExpr' and c['ch']:
+            if 'shared_ptr' in (c.get('callee') or '') or 'unique_ptr' in (c.get('callee') or ''):
+                continue      # dropping a lazily allocated helper (a sampler): re-allocated on the next use, holds no query data
+            t = g.strip(c['ch'][0])
+            while t is not None and t['k'] == 'CXXOperatorCallExpr' and t.get('oop') in ('->', '*'):
+                t = g.strip(t['ch'][0])
+            if t is not None and t['k'] == 'MemberExpr' and t.get('dk') == 'Field' and (g.strip(t['ch'][0]) or {}).get('k') == 'CXXThisExpr':
+                out.setdefault(t['name'], []).append((cal, c))
+    return out
+
+
+def r03v(rep, F):
+    rep.rule('R03v', 'clearQuery() forgets the query completely: (a) every planner with its own clearQuery() and clear(): each member object that '
+                     'clear() empties through clear() / reset() is also emptied by clearQuery() (clear, reset, clearQuery or restart), unless the '
+                     'member IS what clearQuery() is meant to keep (the roadmap: frozen table with reasons); (b) the input-state iterator is '
+                     'restarted (pis_.restart()), not merely updated -- update() only resets the counters when the problem-definition pointer '
+                     'changed, so a new query set in the SAME problem definition would find every start already consumed')
+    n = 0
+    for rec in sorted(F.records):
+        cq = [g for g in F.by_name.get(rec + '::clearQuery', []) if g.body and not g.params]
+        cl = [g for g in F.by_name.get(rec + '::clear', []) if g.body and not g.params]
+        if not cq or not cl or rec not in F.subclasses(B + 'Planner'):
+            continue
+        a, b = _cleared_members(cl[0]), _cleared_members(cq[0])
+        for m in sorted(a):
+            if (rec, m) in CLEARQUERY_EXCEPTIONS:
+                rep.undecided('R03v', rec + '::clearQuery', 'query-forgotten:' + m, CLEARQUERY_EXCEPTIONS[(rec, m)])
+                continue
+            if m in ('pis_',):
+                continue
+            n += 1
+            ok = m in b
+            rep.add('R03v', rec + '::clearQuery', 'query-forgotten:' + m, ok, cq[0].where(b[m][0][1]) if ok else cq[0].loc,
+                    'emptied by %s()' % b[m][0][0] if ok else
+                    '%s is emptied by clear() but survives clearQuery(): what the previous query left in it (edges, cached sources, marks) is '
+                    'used by the next query' % m)
+        # (b) input states restarted
+        touches_pis = [c for c in cq[0].walk() if c['k'] == 'CXXMemberCallExpr' and 'this.pis_' in cq[0].fp(c['ch'][0])]
+        if touches_pis:
+            n += 1
+            ok = any((c.get('callee') or '').endswith('PlannerInputStates::restart') or (c.get('callee') or '').endswith('PlannerInputStates::clear') for c in touches_pis)
+            rep.add('R03v', rec + '::clearQuery', 'input-states-restarted', ok, cq[0].where(touches_pis[0]),
+                    'pis_.restart()' if ok else
+                    'clearQuery() calls %s on the input-state iterator: the consumed-start / consumed-goal counters survive when the same '
+                    'problem definition object carries the next query' % sorted({(c.get('callee') or '').split('::')[-1] for c in touches_pis}))
+    rep.require_count('R03v', 'members emptied by clearQuery() and input-state restarts', n, 9)
+
+
 def run(rep):
     units = P.geometric_units() + P.control_units() + P.multilevel_units() + P.base_units()
     F = facts.load_units(units)
@@ -1191,6 +1255,10 @@ def run(rep):
     r03q(rep, F)
     r03r(rep, F, solves)
     r03t(rep, F, solves)
+    r03v(rep, F)
+    # R03w: what a resumed solve re-registers describes the path it registers (C01's R01y under C03's id)
+    from rules import c01_informed
+    c01_informed.r01y(rep, F, rule='R03w')
     # the RRTConnect side-flag invariant decides which branch is reported as the approximate solution of an interrupted solve
     from rules import c01
     c01.r01k(rep, F)
